@@ -275,3 +275,64 @@ impl BytesMut {
     #[verifier::external_body]
     pub fn freeze(self) -> (r: Bytes) ensures r@ == self@ { unimplemented!() }
 }
+
+// ---- flate2 (E7): raw deflate is two uninterpreted functions; the ONLY assumed fact is the
+// ---- round trip inflate(deflate(d, level)) == Some(d).  miniz_oxide itself is not verified.
+pub uninterp spec fn deflate_spec(d: Seq<u8>, level: int) -> Seq<u8>;
+pub uninterp spec fn inflate_spec(z: Seq<u8>) -> Option<Seq<u8>>;
+
+// ASSUMPTION[flate2-roundtrip]
+pub broadcast proof fn axiom_flate2_roundtrip(d: Seq<u8>, level: int)
+    ensures
+        #[trigger] inflate_spec(deflate_spec(d, level)) == Some(d),
+{
+    admit();
+}
+
+#[verifier::external_body]
+#[derive(Copy, Clone)]
+pub struct Compression { l: u32 }
+impl Compression {
+    pub uninterp spec fn level(&self) -> int;
+}
+
+#[verifier::external_body]
+pub struct IoError { e: u8 }
+
+#[verifier::external_body]
+pub struct DeflateEncoder<'a> { r: &'a [u8] }
+impl<'a> DeflateEncoder<'a> {
+    pub uninterp spec fn src(&self) -> Seq<u8>;
+    pub uninterp spec fn lvl(&self) -> int;
+    #[verifier::external_body]
+    pub fn new(r: &'a [u8], level: Compression) -> (e: Self) ensures e.src() == r@, e.lvl() == level.level() { unimplemented!() }
+    /// io::Read::read_to_end: appends the whole compressed stream (reading from a slice cannot fail,
+    /// but the io::Result is kept: Ok appends deflate(src), Err leaves buf's content unspecified)
+    #[verifier::external_body]
+    pub fn read_to_end(&mut self, buf: &mut Vec<u8>) -> (r: core::result::Result<usize, IoError>)
+        ensures r is Ok ==> final(buf)@ == old(buf)@ + deflate_spec(old(self).src(), old(self).lvl()),
+    { unimplemented!() }
+}
+
+#[verifier::external_body]
+pub struct DeflateDecoder<'a> { r: &'a [u8] }
+impl<'a> DeflateDecoder<'a> {
+    pub uninterp spec fn src(&self) -> Seq<u8>;
+    #[verifier::external_body]
+    pub fn new(r: &'a [u8]) -> (e: Self) ensures e.src() == r@ { unimplemented!() }
+    /// Ok appends the inflated content (which then exists), Err on a corrupt stream; never panics (assumed)
+    #[verifier::external_body]
+    pub fn read_to_end(&mut self, buf: &mut Vec<u8>) -> (r: core::result::Result<usize, IoError>)
+        ensures
+            r is Ok <==> inflate_spec(old(self).src()) is Some,
+            r is Ok ==> final(buf)@ == old(buf)@ + inflate_spec(old(self).src())->Some_0,
+    { unimplemented!() }
+}
+
+/// E11: decoder-side pre-allocation from an untrusted length goes through this budgeted wrapper
+/// (body = Vec::with_capacity); the precondition is the C16/C05 allocation rule.
+#[verifier::external_body]
+pub fn with_capacity_budget(n: usize) -> (v: Vec<u8>)
+    requires n <= 65536,
+    ensures v@ == Seq::<u8>::empty(),
+{ Vec::with_capacity(n) }
